@@ -12,6 +12,10 @@ void   v_elem_dtor(void *p) { g_dtor_calls++; g_dtor_arg = p; }
 
 m_bst_t *g_t; bst_node **g_slot; bst_node *g_N, *g_child, *g_Nd; bst_node g_dummy_node;
 
+#ifdef V_TRAV_UNIT
+bst_node *g_W, *g_WL, *g_WR; size_t g_szL, g_szR, g_cbcalls, g_cbposW; void *g_Wup;
+int v_trav_cb(void *up, void *data);
+#endif
 #ifdef V_CBMC
 #include "bst.contracts.h"
 #else
@@ -76,6 +80,23 @@ void h_b_remove_node(void) {
     V_CANARY();
 }
 
+#ifdef V_TRAV_UNIT
+#define TRAV_INPUTS(X) X(uint64_t, szl) X(uint64_t, szr) X(uint8_t, null_node) X(uint64_t, c0)
+static void build_trav(void) {
+    common_init();
+    V_ASSUME(vin_a < ((uint64_t)1 << 60) && vin_b < ((uint64_t)1 << 60) && vin_len < ((uint64_t)1 << 60));
+    g_szL = vin_a; g_szR = vin_b; g_cbcalls = vin_len; g_cbposW = ~(size_t)0;
+    g_W = mknode(vin_up0); g_Wup = g_W->userptr; g_W->parent = NULL;
+    g_WL = g_szL ? mknode(3) : NULL; g_WR = g_szR ? mknode(5) : NULL; g_W->left = g_WL; g_W->right = g_WR;
+    m_bst_cb keep = v_trav_cb; (void)keep;
+}
+void h_b_traverse_in(void) { build_trav(); int r = traverse_inorder(vin_null_arg ? NULL : g_W, v_trav_cb, &g_cbcalls);
+    V_COVER("in-both-subtrees", r == 0 && !vin_null_arg && vin_a == 70 && vin_b == 3 && g_cbcalls == vin_len + 74); V_COVER("in-leaf", !vin_null_arg && vin_a == 0 && vin_b == 0); V_COVER("in-empty", vin_null_arg); V_CANARY(); }
+void h_b_traverse_pre(void) { build_trav(); int r = traverse_preorder(vin_null_arg ? NULL : g_W, v_trav_cb, &g_cbcalls);
+    V_COVER("pre-both-subtrees", r == 0 && !vin_null_arg && vin_a == 70 && vin_b == 3); V_COVER("pre-empty", vin_null_arg); V_CANARY(); }
+void h_b_traverse_post(void) { build_trav(); int r = traverse_postorder(vin_null_arg ? NULL : g_W, v_trav_cb, &g_cbcalls);
+    V_COVER("post-both-subtrees", r == 0 && !vin_null_arg && vin_a == 70 && vin_b == 3); V_COVER("post-empty", vin_null_arg); V_CANARY(); }
+#endif
 /* ===================================== bounded stand-ins ============================================ */
 #ifndef V_N
 #define V_N 0
